@@ -141,9 +141,24 @@ def gen_form(g, allow_E=True, stream=False, errors=True):
     if r < 0.8:
         m, t1, t2 = g.name("mac"), g.t(), g.t()
         return {"src": f"(do (defmacro {m} [] (E {t1}) '(E {t2})) ({m}))", "val": ["int", t2], "ct": [t1]}
-    if r < 0.85:
+    if r < 0.83:
         t = g.t()
         return {"src": f"(eval-when-compile (E {t}))", "val": ["none"], "ct": [t]}
+    if r < 0.87:
+        # forms whose value lives in a compiler temporary (match, try, with): a case that is not taken, a guard that
+        # fails, a last form that leaves nothing behind
+        a, t1, t2 = rng.randrange(2, 900), g.t(), g.t()
+        return rng.choice([
+            {"src": f"(match {a} {a} (E {t1}) _ (E {t2}))", "val": ["int", t1]},
+            {"src": f"(match {a} {a + 1} (E {t1}) _ :if False (E {t2}))", "val": ["none"]},
+            {"src": f"(match [1 {a}] [x y] :if (> y 1000) (E {t1}) [x y] (+ x y (E {t2})))", "val": ["int", 1 + a + t2]},
+            {"src": f"(match {a} x :if (< x 0) (E {t1}))", "val": ["none"]},
+            {"src": f"(try (E {t1}) (except [ValueError] (E {t2})))", "val": ["int", t1]},
+            {"src": f"(do (E {t1}) (do))", "val": ["none"]},
+            {"src": f"(do {a} (pragma :warn-on-core-shadow True))", "val": ["none"]},
+            {"src": f"(cond False (E {t1}))", "val": ["none"]},
+            {"src": f"(when False (E {t1}))", "val": ["none"]},
+        ])
     if r < 0.9:
         t, a = g.t(), rng.randrange(100)
         return {"src": f"(eval-and-compile (E {t}) {a})", "val": ["int", a], "ct": [t]}
@@ -160,7 +175,9 @@ def generate(rng, tier):
     dicts = []
     for _ in range(ndicts):
         r = rng.random()
-        dicts.append({"prior": rng.randrange(len(SENT)) if r < 0.5 else None, "bare": rng.random() < 0.12})
+        # ismod: the dictionary is the namespace of the very module the code is compiled for
+        dicts.append({"prior": rng.randrange(len(SENT)) if r < 0.5 else None, "bare": rng.random() < 0.12,
+                      "ismod": rng.random() < 0.2})
     calls = []
     g = _G(rng)
     internal_run = rng.random() < (0.2 if tier == "thorough" else 0.12)
@@ -243,8 +260,16 @@ def execute(desc):
     mod.E = eff.E
     mod.MOD = mod
     dicts = []
+    dmods = {}
     for spec in desc["dicts"]:
         d = {} if spec["bare"] else {"E": eff.E, "MOD": mod}
+        if spec.get("ismod"):
+            m2 = types.ModuleType("c39dictmod%d" % len(dicts))
+            m2.__dict__.update(d)
+            if not spec["bare"]:
+                m2.MOD = m2
+            d = m2.__dict__
+            dmods[id(d)] = m2
         if spec["prior"] is not None:
             d["hy"] = SENT[spec["prior"]]
         dicts.append(d)
@@ -256,11 +281,22 @@ def execute(desc):
     failed_before = False
     nontrivial = False
 
+    KNOWN_SIG = "globals_is_compile_module_namespace_with_separate_locals"
+
     def binding_ok(ci, when):
         ok = True
+        call_ = desc["calls"][ci]
+        when0 = when
         for di, (spec, d) in enumerate(zip(desc["dicts"], dicts)):
             probes["binding_checks"] += 1
             has = "hy" in d
+            if spec.get("ismod") and call_["shape"] == "gl" and call_["d"][0] == di and call_["d"][1] != di:
+                # the namespace of the module the code is compiled for, passed as globals together with another
+                # locals dict: compiling for a module binds module.hy, and only locals is restored (finding F10)
+                when = KNOWN_SIG
+                probes["module_namespace_as_globals_with_other_locals"] = probes.get("module_namespace_as_globals_with_other_locals", 0) + 1
+            else:
+                when = when0
             if spec["prior"] is None:
                 if has:
                     viols.append({"clause": "binding_leaked", "sig": when,
@@ -309,11 +345,12 @@ def execute(desc):
 
         def do_call():
             m = _model_for(call)
+            cm = dmods.get(id(d1), mod)   # compile for the module whose namespace d1 is, if it is one
             if shape == "g":
-                return hy.eval(m, d1, module=mod)
+                return hy.eval(m, d1, module=cm)
             if shape == "gl":
-                return hy.eval(m, d1, d2, module=mod)
-            return hy.eval(m, None, d1, module=mod)
+                return hy.eval(m, d1, d2, module=cm)
+            return hy.eval(m, None, d1, module=cm)
 
         internal = call.get("internal")
         tr = None
